@@ -88,8 +88,12 @@ func (fr *frame) execInstr(in ssa.Instruction, st *State, reach string, b *ssa.B
 		cont := pt.Underlying().(*types.Pointer).Elem()
 		stt := cont.Underlying().(*types.Struct)
 		ft := stt.Field(x.Field).Type()
-		nv := &Val{lv: fr.ptrLV(pv, pt).extendField(x.Field, cont, ft), frozenIn: pv.frozenIn}
+		nv := &Val{lv: fr.ptrLV(pv, pt).extendField(x.Field, cont, ft), frozenIn: pv.frozenIn, sharedObj: pv.sharedObj}
 		if n, ok := cont.(*types.Named); ok && n.Obj().Pkg() != nil && !fr.pure {
+			tkey := n.Obj().Pkg().Name() + "." + n.Obj().Name()
+			if _, guarded := u.eng.guards[tkey+"."+stt.Field(x.Field).Name()]; u.eng.sharedCfg[tkey] && !guarded && pv.t != "" {
+				nv.sharedObj = pv.t
+			}
 			mi := u.eng.mapInv["F:"+n.Obj().Pkg().Name()+"."+n.Obj().Name()+"."+stt.Field(x.Field).Name()]
 			if strings.Contains(mi, "nonnil") {
 				nv.mapNonNil = true
@@ -180,6 +184,16 @@ func (fr *frame) execInstr(in ssa.Instruction, st *State, reach string, b *ssa.B
 				}
 			}
 			return
+		}
+		if av.sharedObj != "" && !fr.pure && u.servesRequest {
+			// An object every request goroutine reads without a lock: a function that serves a request may write it only
+			// while the object is still its own (allocated in this invocation), or under one of the type's guards.
+			cond := "false"
+			if u.alloc0 != "" {
+				cond = fmt.Sprintf("(>= %s %s)", av.sharedObj, u.alloc0)
+			}
+			u.oblige(fr.obName("config-write", fr.describe(x.Addr, 0)), "lock", []string{"C20"}, reach, cond, fr.pos(x.Pos()),
+				"a field that concurrent requests read without a lock is not written while serving a request")
 		}
 		if av.frozenIn != "" && !fr.pure {
 			// the address was read out of a frozen registry in this function: the store is legal only if the key was absent
